@@ -12,18 +12,39 @@ import (
 	"github.com/philpearl/plenc/plenccore"
 )
 
+type pendingKey struct {
+	typ reflect.Type
+	tag string
+}
+
 type wrappedCodecRegistry struct {
 	CodecRegistry
 	typ   reflect.Type
 	tag   string
 	codec Codec
+	// pending holds the codecs built while the outermost struct codec is under
+	// construction. They can refer to struct codecs that are not complete yet
+	// (recursive types), so they are kept out of the shared registry until
+	// the outermost struct codec is complete, and dropped if it fails.
+	pending map[pendingKey]Codec
 }
 
 func (w wrappedCodecRegistry) Load(typ reflect.Type, tag string) Codec {
 	if typ == w.typ && tag == w.tag {
 		return w.codec
 	}
+	if c, ok := w.pending[pendingKey{typ: typ, tag: tag}]; ok {
+		return c
+	}
 	return w.CodecRegistry.Load(typ, tag)
+}
+
+func (w wrappedCodecRegistry) StoreOrSwap(typ reflect.Type, tag string, c Codec) Codec {
+	if existing := w.Load(typ, tag); existing != nil {
+		return existing
+	}
+	w.pending[pendingKey{typ: typ, tag: tag}] = c
+	return c
 }
 
 func BuildStructCodec(p CodecBuilder, registry CodecRegistry, typ reflect.Type, tag string) (Codec, error) {
@@ -36,7 +57,13 @@ func BuildStructCodec(p CodecBuilder, registry CodecRegistry, typ reflect.Type, 
 		fields: make([]description, typ.NumField()),
 	}
 
-	registry = wrappedCodecRegistry{CodecRegistry: registry, typ: typ, tag: tag, codec: &c}
+	shared := registry
+	outer, nested := registry.(wrappedCodecRegistry)
+	pending := outer.pending
+	if !nested {
+		pending = make(map[pendingKey]Codec)
+	}
+	registry = wrappedCodecRegistry{CodecRegistry: registry, typ: typ, tag: tag, codec: &c, pending: pending}
 
 	var maxIndex int
 	var count int
@@ -116,6 +143,13 @@ func BuildStructCodec(p CodecBuilder, registry CodecRegistry, typ reflect.Type, 
 		c.fieldsByIndex[f.index] = shortDesc{
 			codec:  f.codec,
 			offset: f.offset,
+		}
+	}
+
+	if !nested {
+		// Everything built on the way is complete now and can be shared
+		for k, pc := range pending {
+			shared.StoreOrSwap(k.typ, k.tag, pc)
 		}
 	}
 
